@@ -733,7 +733,7 @@ fn case_degenerate_config(out: &mut CaseOut, rng: &mut Rng, idx: u64) {
 
 /// Closing a database that has read a lot: tens of thousands of small blocks go through the block
 /// cache (reads that fill it), then the database is closed and the last handle to its options -
-/// and with it the cache - is dropped on an ordinary thread (default stack size). Everything that
+/// and with it the cache - is dropped on a thread with a small (128 KiB) stack. Everything that
 /// was cached is freed there; that, too, has to come back.
 fn case_big_cache(out: &mut CaseOut, rng: &mut Rng) {
     let d = director();
@@ -761,7 +761,8 @@ fn case_big_cache(out: &mut CaseOut, rng: &mut Rng) {
     drop(sess);
     // the options of this case (and their block cache) are dropped on a thread of their own
     let t0 = Instant::now();
-    let dropper = std::thread::Builder::new().name("c09-options-dropper".into()).spawn(|| {
+    // (128 KiB: the default thread stack of musl libc - what is freed must not need more the more was cached)
+    let dropper = std::thread::Builder::new().name("c09-options-dropper".into()).stack_size(128 * 1024).spawn(|| {
         let _g = watch::enter("drop(options and block cache)");
         dbutil::new_case();
     }).unwrap();
